@@ -26,7 +26,8 @@ LEVEL_TEXT = ("Theorems by structural induction over every expression tree (all 
               "printer as it is in /repo today, fx_all = with all of them): flat iteration is the recursive expansion of one-layer iteration (parentheses "
               "included) and str() is its concatenation; building with string parsing on equals building the tree in which exactly the strings selected by the "
               "stated rule are replaced by their parsed code (flag on, not under a slice of a name chain that the module's imports resolve to typing.Literal "
-              "-- the resolution, i.e. canonical_path, is inside the model --, not literal text of an f-string, not in a subscripted value, not in a lambda "
+              "-- the resolution, i.e. canonical_path, is inside the model, names bound by the expression itself (comprehension targets, lambda parameters: "
+              "rule scope_ok) resolve to themselves --, not literal text of an f-string, not in a subscripted value, not in a lambda "
               "default, content parses); every Name / attribute name of that tree appears, in order, as a name piece; and str(build e) equals a "
               "precedence-aware reference printer (conversions, format specs and escapes included) character for character whenever e touches none of the "
               "decidable gap families that the repairs present in the tree leave. For the printer with every repair the theorem holds with NO grouping, "
@@ -142,20 +143,21 @@ def header_env(header: str) -> dict:
 ENVS = [header_env(h) for h in HEADERS]
 
 
-def canonical(value, env):
+def canonical(value, env, ls=frozenset()):
     """ExprName / ExprAttribute.canonical_path of a pure Name/Attribute chain (None for anything else).
-    A name the module does not bind resolves to itself (NameResolutionError is swallowed)."""
+    A name the module does not bind resolves to itself (NameResolutionError is swallowed); so does a name the
+    expression binds itself (no parent)."""
     if isinstance(value, ast.Name):
-        return env.get(value.id, value.id)
+        return value.id if value.id in ls else env.get(value.id, value.id)
     if isinstance(value, ast.Attribute):
-        c = canonical(value.value, env)
+        c = canonical(value.value, env, ls)
         return None if c is None else c + "." + value.attr
     return None
 
 
-def is_literal(value, env=None) -> bool:
+def is_literal(value, env=None, ls=frozenset()) -> bool:
     """Does the subscripted value denote typing.Literal / typing_extensions.Literal under the module's imports?"""
-    return canonical(value, ENVS[0] if env is None else env) in LITERAL_PATHS
+    return canonical(value, ENVS[0] if env is None else env, ls) in LITERAL_PATHS
 
 
 def try_parse(text: str):
@@ -179,90 +181,103 @@ def lambda_params(a: ast.arguments):
     return po, pk, (a.vararg.arg if a.vararg else None), ko, (a.kwarg.arg if a.kwarg else None)
 
 
-def A(n, env=None):
-    """ast node -> model term (env: the module's import bindings, for the Literal test)."""
+def comp_targets(generators) -> set:
+    """Names stored by the targets of the `for` clauses of a comprehension (in `for a.b in` / `for a[0] in`, a is loaded)."""
+    return {x.id for g in generators for x in ast.walk(g.target) if isinstance(x, ast.Name) and isinstance(x.ctx, ast.Store)}
+
+
+def lambda_names(a: ast.arguments) -> set:
+    return ({p.arg for p in a.posonlyargs + a.args + a.kwonlyargs} | ({a.vararg.arg} if a.vararg else set())
+            | ({a.kwarg.arg} if a.kwarg else set()))
+
+
+def A(n, env=None, ls=frozenset()):
+    """ast node -> model term. env: the module's import bindings (for the Literal test); ls: the names the enclosing
+    expression binds itself (comprehension targets, lambda parameters): a Name in ls is flagged local."""
     if env is not None and env is not ENVS[0]:
-        return _A_env(n, env)
+        return _A_env(n, env, ls)
+    R = lambda x: A(x, None, ls)
     t = type(n)
     if t is ast.Name:
-        return [1, n.id]
+        return [1, n.id, 1 if n.id in ls else 0]
     if t is ast.Constant:
         v = n.value
         if isinstance(v, str):
             p = try_parse(v)
-            return [4, repr(v), v, [] if p is None else [A(p)]]
+            return [4, repr(v), v, [] if p is None else [R(p)]]
         if v is Ellipsis:
             return [3, "..."]
         if isinstance(v, (int, float, complex)) and not isinstance(v, bool):
             return [2, 1 if isinstance(v, int) else 0, repr(v)]
         return [3, repr(v)]
     if t is ast.Attribute:
-        return [5, A(n.value), n.attr]
+        return [5, R(n.value), n.attr]
     if t is ast.BinOp:
-        return [6, A(n.left), type(n.op).__name__, A(n.right)]
+        return [6, R(n.left), type(n.op).__name__, R(n.right)]
     if t is ast.BoolOp:
-        return [7, type(n.op).__name__, [A(x) for x in n.values]]
+        return [7, type(n.op).__name__, [R(x) for x in n.values]]
     if t is ast.UnaryOp:
-        return [8, type(n.op).__name__, A(n.operand)]
+        return [8, type(n.op).__name__, R(n.operand)]
     if t is ast.Compare:
-        return [9, A(n.left), [type(o).__name__ for o in n.ops], [A(x) for x in n.comparators]]
+        return [9, R(n.left), [type(o).__name__ for o in n.ops], [R(x) for x in n.comparators]]
     if t is ast.Call:
-        return [10, A(n.func), [A(x) for x in n.args], [A(k) for k in n.keywords]]
+        return [10, R(n.func), [R(x) for x in n.args], [R(k) for k in n.keywords]]
     if t is ast.keyword:
-        return [11, opt(n.arg), A(n.value)]
+        return [11, opt(n.arg), R(n.value)]
     if t is ast.Subscript:
-        return [12, A(n.value), 1 if is_literal(n.value, _CUR_ENV[0]) else 0, A(n.slice)]
+        return [12, R(n.value), 1 if is_literal(n.value, _CUR_ENV[0], ls) else 0, R(n.slice)]
     if t is ast.Slice:
-        return [13, opt(n.lower and A(n.lower)), opt(n.upper and A(n.upper)), opt(n.step and A(n.step))]
+        return [13, opt(n.lower and R(n.lower)), opt(n.upper and R(n.upper)), opt(n.step and R(n.step))]
     if t is ast.Tuple:
-        return [14, [A(x) for x in n.elts]]
+        return [14, [R(x) for x in n.elts]]
     if t is ast.List:
-        return [15, [A(x) for x in n.elts]]
+        return [15, [R(x) for x in n.elts]]
     if t is ast.Set:
-        return [16, [A(x) for x in n.elts]]
+        return [16, [R(x) for x in n.elts]]
     if t is ast.Dict:
-        return [17, [[18, [] if k is None else [A(k)], A(v)] for k, v in zip(n.keys, n.values)]]
+        return [17, [[18, [] if k is None else [R(k)], R(v)] for k, v in zip(n.keys, n.values)]]
     if t is ast.IfExp:
-        return [19, A(n.body), A(n.test), A(n.orelse)]
+        return [19, R(n.body), R(n.test), R(n.orelse)]
     if t is ast.Lambda:
         po, pk, vp, ko, vk = lambda_params(n.args)
-        par = lambda nd: [21, nd[0], [] if nd[1] is None else [A(nd[1])]]
-        return [20, [par(x) for x in po], [par(x) for x in pk], opt(vp), [par(x) for x in ko], opt(vk), A(n.body)]
+        par = lambda nd: [21, nd[0], [] if nd[1] is None else [R(nd[1])]]       # defaults: evaluated outside
+        return [20, [par(x) for x in po], [par(x) for x in pk], opt(vp), [par(x) for x in ko], opt(vk),
+                A(n.body, None, ls | lambda_names(n.args))]
     if t is ast.NamedExpr:
-        return [22, A(n.target), A(n.value)]
+        return [22, R(n.target), R(n.value)]
     if t is ast.Starred:
-        return [23, A(n.value)]
-    if t is ast.ListComp:
-        return [24, A(n.elt), [A(g) for g in n.generators]]
-    if t is ast.SetComp:
-        return [25, A(n.elt), [A(g) for g in n.generators]]
-    if t is ast.GeneratorExp:
-        return [26, A(n.elt), [A(g) for g in n.generators]]
-    if t is ast.DictComp:
-        return [27, A(n.key), A(n.value), [A(g) for g in n.generators]]
+        return [23, R(n.value)]
+    if t in (ast.ListComp, ast.SetComp, ast.GeneratorExp, ast.DictComp):
+        inner = ls | comp_targets(n.generators)
+        I = lambda x: A(x, None, inner)
+        gens = [[28, I(g.target), (R if i == 0 else I)(g.iter), [I(x) for x in g.ifs], 1 if g.is_async else 0]
+                for i, g in enumerate(n.generators)]
+        if t is ast.DictComp:
+            return [27, I(n.key), I(n.value), gens]
+        return [{ast.ListComp: 24, ast.SetComp: 25, ast.GeneratorExp: 26}[t], I(n.elt), gens]
     if t is ast.comprehension:
-        return [28, A(n.target), A(n.iter), [A(x) for x in n.ifs], 1 if n.is_async else 0]
+        return [28, R(n.target), R(n.iter), [R(x) for x in n.ifs], 1 if n.is_async else 0]
     if t is ast.JoinedStr:
-        return [29, [A(x) for x in n.values]]
+        return [29, [R(x) for x in n.values]]
     if t is ast.FormattedValue:
-        return [30, A(n.value), n.conversion, [] if n.format_spec is None else [A(n.format_spec)]]
+        return [30, R(n.value), n.conversion, [] if n.format_spec is None else [R(n.format_spec)]]
     if t is ast.Yield:
-        return [31, [] if n.value is None else [A(n.value)]]
+        return [31, [] if n.value is None else [R(n.value)]]
     if t is ast.YieldFrom:
-        return [32, A(n.value)]
+        return [32, R(n.value)]
     if t is ast.Await:
-        return [33, A(n.value)]
+        return [33, R(n.value)]
     raise ValueError(f"no abstraction for {t.__name__}")
 
 
 _CUR_ENV = [ENVS[0]]
 
 
-def _A_env(n, env):
+def _A_env(n, env, ls=frozenset()):
     old = _CUR_ENV[0]
     _CUR_ENV[0] = env
     try:
-        return A(n)
+        return A(n, None, ls)
     finally:
         _CUR_ENV[0] = old
 
@@ -334,44 +349,55 @@ def py_names(n):
 
 
 def py_dotted(n):
-    """Dotted paths of every Attribute node whose value is a pure Name/Attribute chain, in textual order."""
-    def dotted(x):
+    """Dotted paths of every Attribute node whose value is a pure Name/Attribute chain, in textual order. Chains rooted at
+    a name the expression binds itself (comprehension target, lambda parameter) have no path and are left out."""
+    def dotted(x, ls):
         if isinstance(x, ast.Name):
-            return x.id
+            return None if x.id in ls else x.id
         if isinstance(x, ast.Attribute):
-            d = dotted(x.value)
+            d = dotted(x.value, ls)
             return None if d is None else d + "." + x.attr
         return None
     out = []
 
-    def walk(x):
+    def walk(x, ls):
         t = type(x)
         if t is ast.Attribute:
-            walk(x.value)
-            d = dotted(x)
+            walk(x.value, ls)
+            d = dotted(x, ls)
             if d is not None:
                 out.append(d)
             return
         if t is ast.IfExp:
-            walk(x.body); walk(x.test); walk(x.orelse)
+            walk(x.body, ls); walk(x.test, ls); walk(x.orelse, ls)
             return
         if t is ast.Dict:
             for k, v in zip(x.keys, x.values):
                 if k is not None:
-                    walk(k)
-                walk(v)
+                    walk(k, ls)
+                walk(v, ls)
             return
         if t is ast.Lambda:
             po, pk, _, ko, _ = lambda_params(x.args)
             for _, d in po + pk + ko:
                 if d is not None:
-                    walk(d)
-            walk(x.body)
+                    walk(d, ls)
+            walk(x.body, ls | lambda_names(x.args))
+            return
+        if t in (ast.ListComp, ast.SetComp, ast.GeneratorExp, ast.DictComp):
+            inner = ls | comp_targets(x.generators)
+            for y in ([x.key, x.value] if t is ast.DictComp else [x.elt]):
+                walk(y, inner)
+            for i, g in enumerate(x.generators):
+                walk(g.target, inner)
+                walk(g.iter, ls if i == 0 else inner)
+                for c in g.ifs:
+                    walk(c, inner)
             return
         if t is ast.FormattedValue:
-            walk(x.value)      # without the repair a format spec is not stored (finding F3); its names are checked by the names test
+            walk(x.value, ls)      # without the repair a format spec is not stored (finding F3); its names are checked by the names test
             if FX["fconv"] and x.format_spec is not None:
-                walk(x.format_spec)
+                walk(x.format_spec, ls)
             return
         if t is ast.Constant or not isinstance(x, ast.AST):
             return
@@ -379,8 +405,8 @@ def py_dotted(n):
             v = getattr(x, f)
             for y in (v if isinstance(v, list) else [v]):
                 if isinstance(y, ast.AST):
-                    walk(y)
-    walk(n)
+                    walk(y, ls)
+    walk(n, frozenset())
     return out
 
 
@@ -1203,10 +1229,12 @@ def check_case(ctx, c, obj, out, stream):
         ctx.observe("outcome", "UNEXPLAINED-visit-raised")
         ctx.property_failure(cj, {"visit raised": type(obj).__name__ + ": " + str(obj)[:200]})
         return
-    if out == ["bad-input"] or len(out) != 10:
+    if out == ["bad-input"] or len(out) != 11:
         ctx.tie_failure("harness", "model rejected the abstraction", out, cj)
         return
-    wf, nopar, mbuild, mref, gaps, mnames, unsupported, msub, drops, lits = out
+    wf, nopar, mbuild, mref, gaps, mnames, unsupported, msub, drops, lits, scope = out
+    if scope != 1:
+        ctx.tie_failure("oracle", "local names: the harness's reading of which names the expression binds itself differs from the model's rule (scope_ok)", {}, cj)
     if wf != 1 or nopar != 1:
         ctx.tie_failure("harness", "abstraction produced an ill-formed term", {"wf": wf, "no_parsed": nopar}, cj)
     if lits != 1:
@@ -1637,7 +1665,7 @@ def py_gaps(n, direct=False, isub=False, ijoin=False, ifmt=False) -> set:
             out.add(4)
         for _, d in po + pk + ko:
             if d is not None:
-                out |= _need(4, d) | py_gaps(d, False, False, False, False)
+                out |= _need(4, d) | py_gaps(d, False, False, ijoin, ifmt)
         return out | ga(4, n.body)
     if t is ast.NamedExpr:
         return ga(18, n.target) | ga(4, n.value)
